@@ -46,8 +46,10 @@ def why_sig(entry):
     return "".join(sorted({o["why"] for o in entry}))
 
 
-def go_replay(ctx, test, files, vin, vout, shards=SHARDS, timeout=1500):
-    env = {"VERIF_IN": vin, "VERIF_OUT": vout, "VERIF_SHARDS": str(shards), "VERIF_WORK": ctx.path("gowork")}
+def go_replay(ctx, test, files, vin, vout, shards=SHARDS, timeout=1500, settle_ms=2000):
+    # settle_ms bounds the wait for a reconfiguration of a live server to take effect
+    env = {"VERIF_IN": vin, "VERIF_OUT": vout, "VERIF_SHARDS": str(shards), "VERIF_WORK": ctx.path("gowork"),
+           "VERIF_SETTLE_MS": str(settle_ms)}
     os.makedirs(ctx.path("gowork"), exist_ok=True)
     rc, out = ctx.go_test(PKG, files, "^%s$" % test, env=env, timeout=timeout)
     rows = vlib.read_ndjson(vout)
@@ -105,10 +107,12 @@ def replay_with_confirmation(ctx, test, files, header, walks, tag):
     confirmed = []
     if bad:
         by_i = {l["i"]: l for l in walks}
-        ids = sorted({b["i"] for b in bad})[:100]
+        ids = sorted({b["i"] for b in bad})[:30]
         vin2, vout2 = ctx.path(tag + "_in2.ndjson"), ctx.path(tag + "_out2.ndjson")
         vlib.write_ndjson(vin2, [header] + [by_i[i] for i in ids])
-        rows2, _ = go_replay(ctx, test, files, vin2, vout2, shards=1)
+        # the same histories once more, each on a fresh server, alone, with a four times
+        # longer bound on the wait for a reconfiguration to take effect
+        rows2, _ = go_replay(ctx, test, files, vin2, vout2, shards=SHARDS, settle_ms=8000)
         again = {(r["i"], r["s"], r["q"]) for r in rows2 if r.get("kind") == "bad"}
         for b in bad:
             if (b["i"], b["s"], b["q"]) in again:
@@ -146,7 +150,7 @@ def trace_validate(ctx, test, files, n_cfg, tag, only=None):
         env["VERIF_ONLY"] = ",".join(str(x) for x in only)
     os.makedirs(ctx.path("gowork"), exist_ok=True)
     rc, out = ctx.go_test(PKG, files, "^%s$" % test, env=env, timeout=900)
-    rows = vlib.read_ndjson(tout)
+    rows = [r for r in vlib.read_ndjson(tout) if r.get("ev") in ("cfg", "q")]
     if rc != 0 or not rows:
         raise vlib.Inconclusive("%s did not complete:\n%s" % (test, out[-3000:]))
     nreal = len(rows)
